@@ -259,6 +259,25 @@ func runC04(c *core.Ctx, ck *Check) {
 					w.Count("wrong_answers", 1)
 				}
 			}
+			// a rejected range that EXCLUDES the probe, then the question itself: what the failed evaluation collected (parsed
+			// exclusions, scratch sets taken from a pool) must not be visible to the next evaluation
+			for n := 0; n < 3; n++ {
+				pr := p.Strs[r.IntN(len(p.Strs))]
+				if !embeddable(pr) {
+					continue
+				}
+				bad := []string{"2.0.0", "not a version!", "<", "1..2", ">=@@"}[r.IntN(5)] // no comparator / rejected version / no version
+				eco.SafeVersContains("vers:"+j.scheme+"/!="+pr+"|"+bad, pr)
+				w.Count("evaluations", 1)
+				w.Count("rejected_exclusion_pretouches", 1)
+				for _, v := range evalC04(c, nil, "vers", []string{text, pr}) {
+					if reported["after-rejected"] < 3 {
+						reported["after-rejected"]++
+						v.Rule += ":after-a-rejected-range-that-excluded-the-probe"
+						w.Report(v)
+					}
+				}
+			}
 			// twin questions (same concatenation of the two argument texts, split elsewhere), asked right after the
 			// original and judged by the same oracle
 			for n := 0; n < 3; n++ {
